@@ -60,6 +60,10 @@ TRANSFORMERS = {
     'filter_nums_multi': ('filter -line-nums 1 3:', 'cached'),
     'filter_nums_but_last': ('filter -line-nums :-2', 'cached'),
     'replace_dirs': ('replace-test-case-dirs', 'line'),
+    # a program with a stdin of its own: "the text to transform is appended to that stdin" - a concatenation of a
+    # constant part and the (possibly fd-written) model
+    'run_cat_with_own_stdin': ('run % cat\n  -stdin "hdr-"', 'cached'),
+    'run_cat_with_own_heredoc_stdin': ('run % cat\n  -stdin <<EOF\nline of the program\nEOF', 'cached'),
     'filter_nums_first_and_last': ('filter -line-nums 1 -1', 'cached'),
     'filter_nums_2_and_last_two': ('filter -line-nums 2 -2:', 'cached'),
 }
@@ -85,6 +89,10 @@ def apply_transformer(tid, t):
     if tid in ('identity', 'replace_none', 'filter_all', 'filter_all_contents', 'filter_nums_all', 'run_cat',
                'run_cat_ignore', 'replace_dirs'):
         return t
+    if tid == 'run_cat_with_own_stdin':
+        return 'hdr-' + t
+    if tid == 'run_cat_with_own_heredoc_stdin':
+        return 'line of the program\n' + t
     if tid == 'lower':
         return t.lower()
     if tid == 'strip':
